@@ -346,13 +346,15 @@ func encoderWrites(fn *ssa.Function) []byteWrite {
 		case *ssa.Call:
 			// header = append(header, b0, b1, …): bytes written at the buffer's current length
 			if bi, ok := x.Call.Value.(*ssa.Builtin); ok && bi.Name() == "append" && len(x.Call.Args) == 2 && isByteSlice(x.Type()) {
-				if base := appendOffset(x.Call.Args[0]); base >= 0 {
+				if base := appendPos(x.Call.Args[0]); base.OK {
 					for i, e := range variadicElems(x.Call.Args[1]) {
 						ls := lanesOf(e, 0)
 						if len(ls) != 1 {
 							continue
 						}
-						out = append(out, byteWrite{Buf: bufferRoot(x), Pos: posExpr{Off: base + int64(i), OK: true}, Lane: ls[0], At: x.Pos()})
+						p := base
+						p.Off += int64(i)
+						out = append(out, byteWrite{Buf: bufferRoot(x), Pos: p, Lane: ls[0], At: x.Pos()})
 					}
 				}
 				continue
@@ -412,6 +414,13 @@ func bufferRoot(v ssa.Value) ssa.Value {
 				continue
 			}
 		}
+		// … also when it grows in a loop
+		if ph, ok := v.(*ssa.Phi); ok {
+			if init, _, ok := loopAppendPhi(ph); ok {
+				v = strip(init)
+				continue
+			}
+		}
 		break
 	}
 	return v
@@ -449,10 +458,102 @@ func appendOffset(v ssa.Value) int64 {
 			}
 			els := variadicElems(c.Call.Args[1])
 			if len(els) == 0 {
-				return -1 // a spread of unknown length
+				// a spread: its length when a dominating test fixes it (if len(tag) != 32 { panic })
+				if n, ok := knownLenAt(c.Call.Args[1], c); ok {
+					return base + n
+				}
+				return -1
 			}
 			return base + int64(len(els))
 		}
 	}
 	return -1
+}
+
+// knownLenAt: the length of slice (or string) x is fixed to a constant by a test every path to at has passed.
+func knownLenAt(x ssa.Value, at ssa.Instruction) (int64, bool) {
+	x = strip(x)
+	if k, ok := x.(*ssa.Const); ok && k.Value != nil && k.Value.Kind().String() == "String" {
+		return int64(len(constantString(k))), true
+	}
+	for _, f := range FactsAt(at) {
+		if f.Op != token.EQL {
+			continue
+		}
+		lx, ok := lenOperand(strip(f.X))
+		if !ok || !(strip(lx) == x || sameValue(lx, x)) {
+			continue
+		}
+		if k, ok := constInt(f.Y); ok && k >= 0 {
+			return k, true
+		}
+	}
+	return 0, false
+}
+
+// loopAppendPhi: ph is a buffer grown by a constant number of appended elements per loop iteration:
+// φ(init, append(…append(φ, e…)…, e…)).  Returns the buffer before the loop and the elements per iteration.
+func loopAppendPhi(ph *ssa.Phi) (ssa.Value, int64, bool) {
+	if len(ph.Edges) != 2 {
+		return nil, 0, false
+	}
+	for k := 0; k < 2; k++ {
+		init, step := ph.Edges[k], ph.Edges[1-k]
+		n := int64(0)
+		v := strip(step)
+		ok := false
+		for i := 0; i < 16; i++ {
+			if v == ssa.Value(ph) {
+				ok = true
+				break
+			}
+			c, isC := v.(*ssa.Call)
+			if !isC {
+				break
+			}
+			b, isB := c.Call.Value.(*ssa.Builtin)
+			if !isB || b.Name() != "append" || len(c.Call.Args) != 2 {
+				break
+			}
+			els := variadicElems(c.Call.Args[1])
+			if len(els) == 0 {
+				break
+			}
+			n += int64(len(els))
+			v = strip(c.Call.Args[0])
+		}
+		if ok && n > 0 && strip(init) != ssa.Value(ph) {
+			return init, n, true
+		}
+	}
+	return nil, 0, false
+}
+
+// appendPos: where the next append onto v writes — a constant (appendOffset) or, for a buffer grown
+// in a loop, the loop-relative position loop(init, stride).
+func appendPos(v ssa.Value) posExpr {
+	if k := appendOffset(v); k >= 0 {
+		return posExpr{Off: k, OK: true}
+	}
+	v = strip(v)
+	if ph, ok := v.(*ssa.Phi); ok {
+		if init, stride, ok := loopAppendPhi(ph); ok {
+			if k := appendOffset(init); k >= 0 {
+				return posExpr{Base: fmt.Sprintf("loop(init=%d,stride=%d)", k, stride), OK: true}
+			}
+		}
+		return posExpr{}
+	}
+	if c, ok := v.(*ssa.Call); ok {
+		if b, ok := c.Call.Value.(*ssa.Builtin); ok && b.Name() == "append" && len(c.Call.Args) == 2 {
+			base := appendPos(c.Call.Args[0])
+			els := variadicElems(c.Call.Args[1])
+			if !base.OK || len(els) == 0 {
+				return posExpr{}
+			}
+			base.Off += int64(len(els))
+			return base
+		}
+	}
+	return posExpr{}
 }
